@@ -113,3 +113,26 @@ Proof.
     try reflexivity; unfold take_wake, park_ret;
     repeat match goal with |- context [match ?x with _ => _ end] => destruct x end; reflexivity.
 Qed.
+
+Ltac curs := repeat match goal with E : cur _ _ = Some ?a |- _ => apply cur_cases in E; destruct E as [[? ->]|(? & ? & ? & ->)] end.
+
+(* an action of another thread (or of an anonymous waker) leaves stack, control point and hand of thread t alone *)
+Lemma step_other_thread s a s' t : step s a = Some s' -> thread_of a <> Some t ->
+  stk s' t = stk s t /\ tpc s' t = tpc s t /\ hand s' t = hand s t.
+Proof.
+  intros H N. destruct a; cbn [thread_of] in N; step_inv H; curs;
+   unfold take_wake, park_ret;
+   repeat match goal with |- context [match ?x with _ => _ end] => destruct x end;
+   repeat match goal with q : qid |- _ => destruct q end;
+   sst; rewrite ?upd_neq by congruence; auto.
+Qed.
+
+(* a thread with a frame on its stack does not change its own (thread-level) control point *)
+Lemma step_own_tpc s a s' t : step s a = Some s' -> stk s t <> [] -> tpc s' t = tpc s t.
+Proof.
+  intros H N. destruct a; step_inv H; curs; try congruence;
+   unfold take_wake, park_ret;
+   repeat match goal with |- context [match ?x with _ => _ end] => destruct x end;
+   repeat match goal with q : qid |- _ => destruct q end;
+   sst; try reflexivity; apply upd_neq; intros ->; congruence.
+Qed.
